@@ -20,9 +20,8 @@ func vDims() (nT, nK int) {
 		vrt.Tag("single-table")
 		return 1, 3
 	}
-	if vrt.Thorough() {
-		nT++
-	}
+	// (one more table in the thorough tier is out of reach for the exhaustive state combinations: more than
+	// three million paths; the thorough tier deepens the symbolic-key variants instead)
 	return
 }
 
